@@ -34,7 +34,20 @@ func c11Scenarios() []ConcScenario {
 			{"cc+hostdata", "", nil, [][]byte{[]byte("host-bytes")}},
 			{"cc+both", "", []string{"data:abc"}, [][]byte{[]byte("host-bytes")}},
 		}
+		if kind == "legacy" {
+			// the inbound request was accepted but the client ends before its first byte
+			for _, cause := range []string{"drop", "dropin"} {
+				out = append(out, ConcScenario{Name: fmt.Sprintf("%s/%s/%s", kind, cause, "accepted"),
+					Plans: []TunnelPlan{{Kind: kind, ConnID: "A", User: "ua", IP: "10.0.0.1", Host: "ha.example:3389", StopAt: "accepted", Script: []string{cause, "idle"}}}})
+			}
+		}
 		for _, st := range stops {
+			if strings.HasPrefix(st.name, "cc") {
+				// a repeated CHANNEL_CREATE (protocol error) on an open channel
+				script := append(append([]string{}, st.pre...), "badcc", "idle")
+				out = append(out, ConcScenario{Name: fmt.Sprintf("%s/%s/%s", kind, "badcc", st.name),
+					Plans: []TunnelPlan{{Kind: kind, ConnID: "A", User: "ua", IP: "10.0.0.1", Host: "ha.example:3389", Script: script, Chunks: st.chunks}}})
+			}
 			for _, cause := range causes {
 				script := append([]string{}, st.pre...)
 				script = append(script, cause)
